@@ -70,3 +70,11 @@ impl<'a, I: Interner> IntoIterator for &'a mut Tables<I> {
         IntoIterator::into_iter(&mut self.tables)
     }
 }
+
+#[cfg(feature = "verif-hooks")]
+impl<I: Interner> Tables<I> {
+    /// Verification hook: one dump per table, in table-index order.
+    pub(crate) fn verif_dump(&self) -> Vec<String> {
+        self.tables.iter().map(|t| t.verif_dump()).collect()
+    }
+}
